@@ -39,7 +39,7 @@ var ruleAddenda = map[string]string{
 	"C14": "form idp-response-sp-initiated: the peer string arrives inside the AuthnRequest (AssertionConsumerServiceURL next to a valid index; RelayState) and the form must post to the registered location",
 	"C15": "group metadata-endpoint-location-forms: 25 lexical forms of valid http(s) URLs (case of scheme/host, non-ASCII, blanks and braces, empty fragment/query, lower- and upper-case escapes, userinfo, IPv6, dot segments, IDN) x 8 endpoint positions x 4 bindings must survive a generation verbatim",
 	"C16": "group hand-set-lifetimes: codec and provider lifetimes set by hand (0, negative, 1 ns .. 25 h) x 9 session ages",
-	"C17": "one of the three protected URLs has reserved characters percent-encoded in its path (and starts with an encoded slash): it must come back verbatim",
+	"C17": "one of the three protected URLs has reserved characters percent-encoded in its path (and starts with an encoded slash): it must come back verbatim; half of the configurations set their own DefaultRedirectURI (the landing page of a login without RelayState); two more configurations deliver responses by reference (HTTP-Artifact response binding, resolved by the middleware through a stub back channel that answers the ArtifactResolve it actually sent)",
 	"C18": "status values with nested PartialLogout / AuthnFailed under non-Success codes; group no-signing-key-published (metadata with an encryption key only / an empty signing descriptor: nothing is valid, whoever signed)",
 	"C20": "store alphabet includes a Get whose destination cannot hold the stored JSON (the error path of Get)",
 }
